@@ -91,6 +91,22 @@ def record(lentil, tier, seed):
                         qs = lentil.radiometry.Spectrum(wn, vn, waveunit=sunit, valueunit=None)
                 out = d.collect_charge(ph, [float(w) for w in waves_u], qs, waveunit=unit)
                 add(dict(base, qe=sj, out=rmat(out)))
+                if rng.random() < 0.3:
+                    # an efficiency TABULATED EXACTLY AT the cube's wavelengths, stored as a boolean / small-integer / half precision
+                    # pass-band, applied to a narrow-typed cube of large counts
+                    qb2 = [Fr(rng.randint(0, 1)) for _ in range(nw)]
+                    if any(qb2):
+                        phn2 = nr.integers(20000, 30000, size=(nw, m, n)) if rng.random() < 0.5 else nr.integers(1024, 2048, size=(nw, m, n))
+                        cdt2, qdt2 = ((np.uint16, rng.choice((bool, np.uint8))) if phn2.max() > 2048 else (np.float16, np.float16))
+                        sj2 = sp.spec_json('nm', None, [Fr(x) for x in wave_nm], qb2) if nw > 1 else None
+                        if sj2 is not None:
+                            qs2 = lentil.radiometry.Spectrum(np.array(wave_nm, dtype=float), np.array([int(x) for x in qb2]).astype(qdt2), waveunit='nm', valueunit=None)
+                            with warnings.catch_warnings():
+                                warnings.simplefilter('ignore')
+                                o2 = d.collect_charge(phn2.astype(cdt2), [float(x) for x in wave_nm], qs2, waveunit='nm')
+                            if not np.all(np.isfinite(o2)):
+                                o2 = np.full(np.shape(o2), -1.0)
+                            add(dict(base, ph=phn2.tolist(), wave=[sp.rj(Fr(x)) for x in wave_nm], wexp=-9, qe=sj2, out=rmat(o2)))
                 if nw == 1 and rng.random() < 0.5:
                     # an efficiency known at ONE wavelength (the cube's): scalar, one-element vector and one-sample spectrum agree
                     q1 = Fr(rng.randint(1, 8), 8)
